@@ -103,6 +103,8 @@ type Link struct {
 	PingLog      []pingRec     // pings written by the client (id, time)
 	PongLog      []pingRec     // pongs written by the client (for broker pings)
 
+	AckDeliveredAt map[[2]uint32]int64 // (stream alias, sequence number) -> scheduler seq of delivery
+
 	txBytes, rxBytes uint64
 	txFrames         int
 
@@ -454,6 +456,18 @@ func (l *Link) DeliverOne() bool {
 		return false
 	}
 	b := l.b2c[0]
+	if ack, ok := l.b2cMsg[0].(*message.UpstreamChunkAck); ok && ack != nil {
+		// when each upstream result was handed to the client (scheduler sequence number)
+		if l.AckDeliveredAt == nil {
+			l.AckDeliveredAt = map[[2]uint32]int64{}
+		}
+		for _, r := range ack.Results {
+			k := [2]uint32{ack.StreamIDAlias, r.SequenceNumber}
+			if _, dup := l.AckDeliveredAt[k]; !dup {
+				l.AckDeliveredAt[k] = l.net.s.seq
+			}
+		}
+	}
 	l.b2c = l.b2c[1:]
 	l.b2cMsg = l.b2cMsg[1:]
 	l.rxBytes += uint64(len(b))
